@@ -64,6 +64,19 @@ def check(ctx):
     else:
         ctx.fail("C15.anchor", "once:anchor-lost:reactor-run", once.loc(withc[0][0]), "no closure built by once() runs the reactor")
         return
+    # ---- C15.g once(): every path that reserved the reactor's entity registers its triggers (which also hands the entity to
+    # the garbage collector through the prepared handle) and stores the callback; an early-out after spawn_empty() leaks the
+    # entity and, with an empty bundle, the reactor is not 'dropped without running' but never collected
+    spawns = [b for b, t, fr in once.iter_calls() if fr and lib.tail(mir.fn_name(fr), 2) in ("Commands::spawn_empty", "Commands::spawn", "World::spawn_empty", "World::spawn")]
+    regs = [b for b, t, fr in once.iter_calls() if fr and lib.tail(mir.fn_name(fr), 1) in ("syscall_with_validation", "syscall")
+            and any(o[0] == "fnitem" and o[1].endswith("register_reactors") for a in t["args"] for o in origins(once, a))]
+    if ctx.floor("C15.g", len(spawns), 1, "entity reservation in once()") and ctx.floor("C15.g", len(regs), 1, "register_reactors syscall in once()"):
+        for what, blocks_ in (("registers-its-triggers", regs), ("stores-its-callback", [withc[0][0]])):
+            w = lib.path_to_return_avoiding(once, [lib.call_target(once, spawns[0])], blocks_)
+            ctx.check(w is None, "C15.g", "once:%s-on-every-path" % what, once.loc(spawns[0]),
+                      "every path from spawn_empty() to return %s" % what.replace("-", " "),
+                      "a path of once() returns after reserving the reactor entity without this step (%s): the entity is never collected" % what,
+                      lib.render_path(once, w) if w else None)
     # ---- C15.a at most once ----
     takes = [b for b, t, fr in outer.iter_calls() if fr and lib.tail(mir.fn_name(fr), 2) == "Option::take"
              and all(o[0] == "arg" and o[1] == 1 for o in origins(outer, t["args"][0]))]
@@ -224,3 +237,8 @@ def _locality(ctx):
                                                               or "visits-every-token-entry" in o["key"]))
                    or (o["rule"] == "C06.e" and ("one-entry-per-bundle-member" in o["key"] or "token-lists-every-bundle-member" in o["key"])), "C15.e")
     ctx.floor("C15.e", n, 4, "shared revocation-effectiveness obligations (C06.c/e)")
+    # 'runs on the first of its triggers to fire': the system that applies the bundle registers every given trigger with
+    # the handle prepared for this reactor (shared with C01.a)
+    import c01
+    n = core.adopt(ctx, c01, lambda o: o["rule"] == "C01.a" and "register_reactors:" in o["key"], "C15.f")
+    ctx.floor("C15.f", n, 1, "shared bundle-registration obligation (C01.a)")
